@@ -39,7 +39,7 @@ def _cfg(tier):
                allow_nested_not="not_under_not" not in avoid, allow_empty_cond=False,
                select="any", desc=("entity", "set_of"), force_relate=True, noise=False,
                dom_kinds=("list", "tuple"), avoid=frozenset(avoid), kw_vars=(1, 6),
-               extra_templates=("and_right_nested_cross",) * 3)
+               extra_templates=("and_right_nested_cross",) * 3 + ("and_left_or_then_other",) * 6)
 
 
 # ---- rewrites (all choices drawn through Hypothesis) -----------------------------------------------
